@@ -135,6 +135,9 @@ class ResendRule(BaseRule):
         if t == "parse_url":
             a = pos[0] if pos else UNK
             return ret(AV("obj", "parsed", truth=True, none=False, tags=frozenset({"parsed:" + x for x in a.tags})))
+        if isinstance(f, ast.Attribute) and f.attr == "_replace" and recv is not None and recv.kind == "obj" and recv.val == "parsed":
+            dropped = {f"dropped:{k}" for k, v in kw.items() if v.kind == "const" and v.val is None}
+            return ret(AV("obj", "parsed", truth=True, none=False, tags=frozenset(recv.tags | dropped)))
         if isinstance(f, ast.Attribute) and f.attr == "_prepare_for_method_change":
             return ret(AV("unk", tags=frozenset((recv.tags if recv is not None else frozenset()) | {"method-change"}), truth=None, none=False))
         if t == "HTTPHeaderDict":
@@ -221,7 +224,7 @@ class ResendRule(BaseRule):
         if base.kind == "obj" and base.val == "response" and node.attr == "status":
             return AV("unk", sym="status")
         if base.kind == "obj" and base.val == "parsed":
-            return AV("unk", tags=frozenset({f"u.{node.attr}"} | {x + f".{node.attr}" for x in base.tags}), sym=f"u.{node.attr}")
+            return AV("unk", tags=frozenset({f"u.{node.attr}"} | {x + f".{node.attr}" for x in base.tags if not x.startswith("dropped:")} | {x for x in base.tags if x.startswith("dropped:")}), sym=f"u.{node.attr}")
         if base.kind == "self" and node.attr in ("retries", "headers", "proxy", "proxy_headers", "proxy_config"):
             return AV("unk", tags=frozenset({f"self.{node.attr}"}), sym=f"self.{node.attr}")
         if base.kind == "obj" and base.val == "pool" and node.attr == "retries":
